@@ -411,7 +411,8 @@ rawnext(void)
 static bool
 peekparen(void)
 {
-	static struct array pending;
+	/* the tokens read ahead stay in use while their frame is on the stack: every look-ahead gets an array of its own */
+	struct array pending = {0};
 	struct token *t, old;
 	struct frame *f;
 
@@ -424,7 +425,6 @@ peekparen(void)
 		++f->ntoken;
 		return false;
 	}
-	pending.len = 0;
 	/* a directive processed while looking ahead must not clobber the current token */
 	old = tok;
 	do t = arrayadd(&pending, sizeof(*t)), nextinto(t);
